@@ -16,7 +16,7 @@ def _crit(kind):
     return ("dist", [real(f"crit_max_d_{i}", 0, 200) for i in range(n)], [real(f"crit_min_d_{i}", 0, 50) for i in range(n)])
 
 
-def accounting(frame, ego_q, n, m, policy, crit_kind, e_labels, g_labels, sym_thr=True):
+def accounting(frame, ego_q, n, m, policy, crit_kind, e_labels, g_labels, sym_thr=True, pf_reversed=False):
     pose = S.Pose(frame, ego_q)
     crit = _crit(crit_kind)
     if not sym_thr:  # keep the larger scenes linear: concrete pass/fail thresholds
@@ -31,7 +31,8 @@ def accounting(frame, ego_q, n, m, policy, crit_kind, e_labels, g_labels, sym_th
                    conf=[0.9, 0.8, 0.7][i]) for i in range(n)]
     gts = [S.SObj(f"g{j}", pose, choose(f"g{j}_label", g_labels), real(f"g{j}_ego_x", -150, 150), lane_g(j),
                   is_gt=True) for j in range(m)]
-    fr, all_results = S.run_frame(pose, ests, gts, TARGETS, policy, crit, thr)
+    # pf_reversed: the pass/fail config lists the labels in the other order than the critical filter (same thresholds per label)
+    fr, all_results = S.run_frame(pose, ests, gts, TARGETS, policy, crit, thr, pf_reversed=pf_reversed)
     p = fr.pass_fail_result
     eo = {id(e.obj): e for e in ests}
     go = {id(g.obj): g for g in gts}
@@ -115,6 +116,8 @@ def obligations(pid, tier):
                     sym_thr = (n + m <= 2) or (n + m == 3 and f == "base_link") or (not quick and n + m <= 3)
                     cases.append(dict(frame=f, ego_q=qq, n=n, m=m, policy=policy, crit_kind=ck, sym_thr=sym_thr,
                                       e_labels=[CAR] if small else [CAR, PED], g_labels=[CAR, FP] if small else [CAR, PED, FP]))
+    cases += [dict(c, pf_reversed=True) for c in cases if c["n"] + c["m"] <= 2 and c["frame"] == "base_link"
+              and c["crit_kind"] == "xy"]
     return [Obligation("accounting", accounting, cases=cases, extras=S.frame_extras,
                        desc="PerceptionFrameResult.evaluate_frame / PassFailResult: conservation, critical region, TP rule")]
 
